@@ -95,10 +95,15 @@ func (fv *FuncVerifier) takeEdge(st *State, from, to *ssa.BasicBlock) bool {
 		st.prev = from
 		env := fv.invEnv(st, li)
 		if li.lc != nil {
+			basePC := st.pc
 			for i, inv := range li.lc.Invariants {
 				g := fv.evalBool(env, inv.E)
 				fv.addOb(st, "inv-keep", fmt.Sprintf("inv-keep:L%d#%d@b%d", li.ord, i, from.Index), g, inv.Src, token.NoPos)
+				if fv.fc.StagedInv {
+					st.pc = append(st.pc[:len(st.pc):len(st.pc)], g)
+				}
 			}
+			st.pc = basePC
 			if li.lc.Decreases != nil {
 				d := fv.evalInt(env, li.lc.Decreases.E)
 				d0 := st.decr[to]
@@ -122,10 +127,16 @@ func (fv *FuncVerifier) takeEdge(st *State, from, to *ssa.BasicBlock) bool {
 	st.prev = from
 	env := fv.invEnv(st, li)
 	if li.lc != nil {
+		basePC := st.pc
 		for i, inv := range li.lc.Invariants {
 			g := fv.evalBool(env, inv.E)
 			fv.addOb(st, "inv-init", fmt.Sprintf("inv-init:L%d#%d", li.ord, i), g, inv.Src, token.NoPos)
+			if fv.fc.StagedInv {
+				// staged: an invariant may build on the ones listed before it (proved just above)
+				st.pc = append(st.pc[:len(st.pc):len(st.pc)], g)
+			}
 		}
+		st.pc = basePC
 	}
 	// havoc
 	fv.havocLoop(st, li)
@@ -1169,7 +1180,7 @@ func (fv *FuncVerifier) nextOp(st *State, x *ssa.Next) Value {
 		w := app(SInt, "rw", s.L[0], abspos, abslim)
 		r := app(SInt, "runeat", s.L[0], abspos, abslim)
 		st.assume(Implies(ok, And(Le(I(1), w), Le(w, I(4)), Le(Add(pos, w), s.L[2]))))
-		st.assume(Implies(ok, And(Le(I(0), r), Le(r, I(0x10ffff)))))
+		st.assume(Implies(ok, And(Le(I(0), r), Le(r, I(0x10ffff)), Or(Lt(r, I(0xD800)), Gt(r, I(0xDFFF))))))
 		// ASCII fast path facts
 		b0 := app(SInt, "sbyte", s.L[0], abspos)
 		st.assume(Implies(And(ok, Lt(b0, I(128))), And(Eq(w, I(1)), Eq(r, b0))))
@@ -1197,10 +1208,22 @@ func (fv *FuncVerifier) nextOp(st *State, x *ssa.Next) Value {
 	return v
 }
 
+// utf8RangeAxioms: what the runtime's UTF-8 decoder guarantees wherever it is applied (assumed;
+// the same facts are assumed at every range-over-string step): inside the limit it consumes 1..4
+// bytes without passing the limit and yields a Unicode scalar value (never a surrogate).
+func (e *Enc) utf8RangeAxioms() {
+	e.declareFun("rw", []string{"Int", "Int", "Int"}, "Int")
+	e.declareFun("runeat", []string{"Int", "Int", "Int"}, "Int")
+	e.addAxiom("(forall ((id Int) (p Int) (l Int)) (! (=> (< p l) (and (<= 1 (rw id p l)) (<= (rw id p l) 4) (<= (+ p (rw id p l)) l))) :pattern ((rw id p l))))")
+	e.addAxiom("(forall ((id Int) (p Int) (l Int)) (! (=> (< p l) (and (<= 0 (runeat id p l)) (<= (runeat id p l) 1114111) (or (< (runeat id p l) 55296) (> (runeat id p l) 57343)))) :pattern ((runeat id p l))))")
+	// rw(id,p,L1) with p+rw<=L2<=L1  ==> rw(id,p,L2)==rw(id,p,L1) and same rune
+	e.addAxiom("(forall ((id Int) (p Int) (l1 Int) (l2 Int)) (! (=> (and (<= (+ p (rw id p l1)) l2) (<= l2 l1)) (and (= (rw id p l2) (rw id p l1)) (= (runeat id p l2) (runeat id p l1)))) :pattern ((rw id p l1) (rw id p l2)) :pattern ((runeat id p l1) (runeat id p l2)) :pattern ((rw id p l1) (runeat id p l2))))")
+	e.assumedUsed["range over a string / rwl, runeatl: the runtime's UTF-8 decoder consumes 1..4 bytes inside the limit, yields a scalar value (no surrogates), and decodes the same character when the limit is moved without cutting it (prefix stability)"] = true
+}
+
 // utf8Axioms: properties of the uninterpreted decode width (prefix stability) used by C32.
 func (fv *FuncVerifier) utf8Axioms() {
-	// rw(id,p,L1) with p+rw<=L2<=L1  ==> rw(id,p,L2)==rw(id,p,L1) and same rune
-	fv.enc.addAxiom("(forall ((id Int) (p Int) (l1 Int) (l2 Int)) (! (=> (and (<= (+ p (rw id p l1)) l2) (<= l2 l1)) (and (= (rw id p l2) (rw id p l1)) (= (runeat id p l2) (runeat id p l1)))) :pattern ((rw id p l1) (rw id p l2))))")
+	fv.enc.utf8RangeAxioms()
 }
 
 func (fv *FuncVerifier) doReturn(st *State, r *ssa.Return) {
@@ -1228,10 +1251,16 @@ func (fv *FuncVerifier) doReturn(st *State, r *ssa.Return) {
 		results = append(results, st.get(v))
 	}
 	env := fv.postEnv(st, results)
+	basePC := st.pc
 	for i, c := range fv.fc.Ensures {
 		g := fv.evalBool(env, c.E)
 		fv.addOb(st, "post", fmt.Sprintf("post#%d@ret%d", i, idx), g, c.Src, r.Pos())
+		if fv.fc.Staged {
+			// proved just above at this very site: later postconditions may build on it
+			st.pc = append(st.pc[:len(st.pc):len(st.pc)], g)
+		}
 	}
+	st.pc = basePC
 	fv.checkFrame(st, idx, r.Pos())
 	fv.checkLocksAtExit(st, idx, r.Pos())
 	// vacuity canary: this return is reachable under the precondition
